@@ -127,6 +127,11 @@ func (d *Document) AddMathFormula(latex string, isBlock bool) *MathParagraph {
 func isWellFormedMathFragment(content string) bool {
 	const mathNS = "http://schemas.openxmlformats.org/officeDocument/2006/math"
 	const wordNS = "http://schemas.openxmlformats.org/wordprocessingml/2006/main"
+	// encoding/xml 会把指向代理区码位的数字字符引用（&#xD800; ... &#xDFFF;）读成 U+FFFD 而不报错，
+	// 但它们不符合 XML 的 Char 产生式，其他XML解析器会拒绝整个部件
+	if hasIllegalCharacterReference(content) {
+		return false
+	}
 	wrapped := `<m:oMath xmlns:m="` + mathNS + `" xmlns:w="` + wordNS + `">` + content + `</m:oMath>`
 	decoder := xml.NewDecoder(strings.NewReader(wrapped))
 	knownSpace := func(space string) bool {
@@ -178,6 +183,57 @@ func isWellFormedMathFragment(content string) bool {
 			return false
 		}
 	}
+}
+
+// hasIllegalCharacterReference 检查内容中是否有数字字符引用指向 XML 1.0 的 Char 产生式之外的码位
+// （XML 1.0 4.1 节 "Legal Character"）。CDATA 或注释中形如引用的文本也按引用处理：
+// 这样的片段只是退化为纯文本，不会生成格式不良的部件
+func hasIllegalCharacterReference(content string) bool {
+	for i := 0; i+2 < len(content); i++ {
+		if content[i] != '&' || content[i+1] != '#' {
+			continue
+		}
+		j := i + 2
+		base := 10
+		if content[j] == 'x' {
+			base = 16
+			j++
+		}
+		value := int64(0)
+		digits := 0
+		for ; j < len(content); j++ {
+			c := content[j]
+			var digit int64
+			switch {
+			case c >= '0' && c <= '9':
+				digit = int64(c - '0')
+			case base == 16 && c >= 'a' && c <= 'f':
+				digit = int64(c-'a') + 10
+			case base == 16 && c >= 'A' && c <= 'F':
+				digit = int64(c-'A') + 10
+			default:
+				digit = -1
+			}
+			if digit < 0 {
+				break
+			}
+			digits++
+			if value <= 0x10FFFF {
+				value = value*int64(base) + digit
+			}
+		}
+		if digits == 0 || j >= len(content) || content[j] != ';' {
+			continue // 不是完整的引用，由解码器判断
+		}
+		legal := value == 0x9 || value == 0xA || value == 0xD ||
+			(value >= 0x20 && value <= 0xD7FF) ||
+			(value >= 0xE000 && value <= 0xFFFD) ||
+			(value >= 0x10000 && value <= 0x10FFFF)
+		if !legal {
+			return true
+		}
+	}
+	return false
 }
 
 const officeMathNamespace = "http://schemas.openxmlformats.org/officeDocument/2006/math"
